@@ -7,7 +7,9 @@
 From Coq Require Import String.
 From Coq Require Import List NArith Bool.
 From Wbxml Require Import Model.Codec Model.TablesDefs Gen.TablesData Model.Parser Model.TreeBuild Model.TreeConv Model.Conv Model.ConvConcrete
-     Proofs.TreeBuildProofs Proofs.TreeBuildProofs3 Proofs.TreeRoundTrip Proofs.ConvRoundTrip Proofs.ConvSecondIter Proofs.ConvFirstToSecond Proofs.ConvSecondIndent Proofs.ConvSecondNs.
+     Proofs.TreeBuildProofs Proofs.TreeBuildProofs3 Proofs.TreeRoundTrip Proofs.ConvRoundTrip Proofs.ConvSecondIter Proofs.ConvFirstToSecond Proofs.ConvSecondIndent Proofs.ConvSecondNs
+     Proofs.TreeRoundTripWide Proofs.ConvRoundTripWide.
+From Wbxml Require Proofs.EncWbxmlAbs Proofs.EncWbxmlDenote2 Proofs.EncWbxmlTblOk Proofs.EncWbxmlDenote3.
 From Wbxml Require Model.EncWbxml Model.EncWbxmlTables Model.TreeNorm Proofs.EncWbxmlProofs Proofs.EncWbxmlSerialize Proofs.EncWbxmlDenote.
 From Wbxml Require Model.EncXml Model.XmlRead Proofs.EncXmlProofs Proofs.EncXmlIndent.
 From Wbxml Require Model.XmlFront Model.ConvXml2Wbxml Model.LangSelect Proofs.FrontSimple Proofs.FrontSimpleNs.
@@ -334,6 +336,56 @@ Theorem C03_second_iteration_namespaces_partial :
 Proof. exact second_iteration_ns. Qed.
 Print Assumptions C03_second_iteration_namespaces_partial.
 
+(* The first iteration on the WIDE fragment of the WBXML encoder (C06's string-table axis: C03b_roundtrip_wide_partial).
+   PARTIAL in: the hypotheses of the encoder's wide theorem (tree_ok3: tags and attribute starts are the language's rows or names
+   unknown to it, octets 1..255, depth <= 1000, no CDATA / PI; plain_env: not SyncML / Wireless-Village / DRM / OTA; no extension
+   table), output below 4 GiB, no element named "Data", and THE LANGUAGE OF THE SECOND CONVERSION IS FORCED (wbxml2xml -l;
+   Proofs/ConvRoundTripWide.v names the lemma missing for the unforced reading).  Attributes (token starts with or without value
+   prefix, literal names), literal tags, string table on or off, textual or numeric public id: the second conversion succeeds, its
+   output is the generator's text for root' = the normalised source tree with tags by tag_event and attributes by attr_event
+   (name and FULL value; dropped when the language has no attribute table, as the encoder drops them), and reading it back gives
+   the infoset info_g specifies for root'.  On the narrow fragment tnw is tn (C03b_wide_tree_on_narrow_fragment).
+   The second-iteration theorems stay on the narrow fragment: Proofs/FrontSimple.v (the front end on the events of the generated
+   XML) has no attributes. *)
+Theorem C03_conversion_roundtrip_wide_partial :
+  forall (main TBL : list lang) (btbl : list EncWbxml.blang) (sub : EncWbxml.bytes -> XmlFront.xtree + N)
+         evs expat_ok o doc w (L : lang) tag attrs ch o',
+  let e := EncWbxml.enc_env (EncWbxmlDenote2.to_blang L) o in
+  r_out (ConvXml2Wbxml.xml2wbxml_events main btbl sub evs expat_ok o doc) = Some w -> EncWbxml.len w < 4294967296 ->
+  (forall t0, XmlFront.tree_from_xml main sub doc evs expat_ok = inl t0 ->
+     EncWbxml.find_lang btbl (XmlFront.xt_lang t0) = Some (EncWbxmlDenote2.to_blang L) /\
+     XmlFront.xt_roots t0 = [EncWbxml.NElt tag attrs ch]) ->
+  EncWbxmlAbs.plain_env e = true -> EncWbxmlDenote2.vals_ok L = true -> l_exts L = None ->
+  EncWbxmlTblOk.tree_ok3 L 0 (EncWbxml.NElt tag attrs ch) = true ->
+  find (fun x => l_id x =? l_id L) TBL = Some L ->
+  wo_lang o' = l_id L -> l_id L <> 0 -> wo_charset o' = 0 ->
+  EncWbxml.o_version o < 4 -> EncWbxml.header_public_id e < 4294967296 -> EncWbxml.header_public_id e <> 0 ->
+  (match EncWbxmlAbs.header_pid e with Some p => EncWbxmlDenote2.okb p = true | None => True end) ->
+  no_data (EncWbxmlDenote3.doc_events3 L e (EncWbxml.o_keep_ws o) (EncWbxml.NElt tag attrs ch)) = true ->
+  let tg := EncWbxmlTblOk.tag_event tag in
+  let at' := if EncWbxml.has_attr_table e then map EncWbxmlDenote2.attr_event attrs else [] in
+  let root' := TElt tg at' (merge_text (flat_map (tnw (EncWbxml.has_attr_table e))
+                                                 (flat_map (TreeNorm.norm_node (EncWbxml.o_keep_ws o) false) ch))) in
+  let xl := EncXml.xlang_of L in
+  let xo := EncXml.opts_of_params (gen_of (wo_gen o')) (wo_indent o') (wo_keep_ws o') in
+  exists x,
+    wbxml2xml_model TBL o' w = mk_res ST_OK (Some (x ++ [0])) (N.of_nat (length x)) /\
+    EncXml.enc_xml_opts xl xo [to_xnode TBL L root'] = EncXml.XOk x /\
+    (EncXmlProofs.lang_ok xl = true ->
+     EncXmlIndent.node_ok_g xl xo EncXml.proot None (to_xnode TBL L root') = true ->
+     exists c s',
+       EncXmlIndent.info_g xl xo EncXml.proot (EncXml.est0 0) (to_xnode TBL L root')
+         = Some ([XmlRead.XT []; XmlRead.XE (EncXml.tname_bytes (to_tname L tg))
+                                             (EncXmlProofs.spec_attrs xl xo EncXml.proot (to_tname L tg) (map to_attr at')) c;
+                  XmlRead.XT (EncXml.nl_if xo)], s') /\
+       forall fuel, (EncXmlProofs.node_fuel (to_xnode TBL L root') + 2 <= fuel)%nat ->
+         XmlRead.read_xml fuel x =
+         XmlRead.ROk (EncXmlProofs.doc_of xl
+                        [XmlRead.XE (EncXml.tname_bytes (to_tname L tg))
+                                    (EncXmlProofs.spec_attrs xl xo EncXml.proot (to_tname L tg) (map to_attr at')) c])).
+Proof. exact conversion_roundtrip_wide. Qed.
+Print Assumptions C03_conversion_roundtrip_wide_partial.
+
 (* ---- the hypotheses are satisfiable: a WML 1.3 deck through BOTH conversion functions, by computation ----
    <!DOCTYPE wml PUBLIC "-//WAPFORUM//DTD WML 1.3//EN" ...><wml><card><p> a </p><p>  </p></card></wml>
    encoder: WBXML 1.3, no string table, keep_ws off;  generator: compact, language not forced. *)
@@ -514,4 +566,49 @@ Example C03_ex_namespaces_hypotheses :
 Proof.
   vm_compute. repeat split; try reflexivity; try discriminate; try (right; reflexivity); try (left; reflexivity).
   all: try (eexists; eexists; repeat split; reflexivity); repeat constructor.
+Qed.
+
+(* ---- the wide fragment, by computation: a WML 1.3 deck with attributes (token starts), a literal element <zz> with a literal
+   attribute, string table ON (the strings "abcd", "abcd wxyz", "zz", "q" go to the table; the parser reports the text of <p> in
+   pieces, the tree has one text node), language forced in the second conversion.
+   <wml><card id="abcd" title="abcd wxyz"><p> abcd wxyz </p><zz q="abcd">abcd wxyz</zz></card></wml> *)
+Definition exw_evs : list XmlFront.event :=
+  [XmlFront.EvStartDoctype (XmlFront.bs "wml") (Some (XmlFront.bs "http://www.wapforum.org/DTD/wml13.dtd")) (Some (XmlFront.bs "-//WAPFORUM//DTD WML 1.3//EN"));
+   XmlFront.EvStartElement (XmlFront.bs "wml") [] 100;
+   XmlFront.EvStartElement (XmlFront.bs "card") [(XmlFront.bs "id", XmlFront.bs "abcd"); (XmlFront.bs "title", XmlFront.bs "abcd wxyz")] 105;
+   XmlFront.EvStartElement (XmlFront.bs "p") [] 119; XmlFront.EvCharacters (XmlFront.bs " abcd wxyz "); XmlFront.EvEndElement (XmlFront.bs "p") 130;
+   XmlFront.EvStartElement (XmlFront.bs "zz") [(XmlFront.bs "q", XmlFront.bs "abcd")] 134; XmlFront.EvCharacters (XmlFront.bs "abcd wxyz");
+   XmlFront.EvEndElement (XmlFront.bs "zz") 140; XmlFront.EvEndElement (XmlFront.bs "card") 145; XmlFront.EvEndElement (XmlFront.bs "wml") 150].
+Definition exw_o := EncWbxml.mk_opts 3 true false false.
+Definition exw_o' := mk_w2x 1104 0 0 0 false.
+Definition exw_x : bytes :=
+  bytes_of_string "<?xml version=""1.0""?><!DOCTYPE wml PUBLIC ""-//WAPFORUM//DTD WML 1.3//EN"" ""http://www.wapforum.org/DTD/wml13.dtd""><wml><card id=""abcd"" title=""abcd wxyz""><p>abcd wxyz</p><zz q=""abcd"">abcd wxyz</zz></card></wml>".
+Definition exw_L : lang := nth 3 main_table (mk_lang 0 0 None None None None None None None None).
+Definition exw_root : EncWbxml.node :=
+  EncWbxml.NElt (EncWbxml.TagTok 0 63 0 (XmlFront.bs "wml")) []
+    [EncWbxml.NElt (EncWbxml.TagTok 0 39 0 (XmlFront.bs "card"))
+       [EncWbxml.mk_at (EncWbxml.AttrTok 0 85 (XmlFront.bs "id") None) (XmlFront.bs "abcd");
+        EncWbxml.mk_at (EncWbxml.AttrTok 0 54 (XmlFront.bs "title") None) (XmlFront.bs "abcd wxyz")]
+       [EncWbxml.NElt (EncWbxml.TagTok 0 32 0 (XmlFront.bs "p")) [] [EncWbxml.NText (XmlFront.bs " abcd wxyz ")];
+        EncWbxml.NElt (EncWbxml.TagLit (XmlFront.bs "zz")) [EncWbxml.mk_at (EncWbxml.AttrLit (XmlFront.bs "q")) (XmlFront.bs "abcd")]
+                      [EncWbxml.NText (XmlFront.bs "abcd wxyz")]]].
+Definition exw_w : bytes :=
+  [3; 10; 106; 20; 97; 98; 99; 100; 0; 97; 98; 99; 100; 32; 119; 120; 121; 122; 0; 122; 122; 0; 113; 0; 127; 231; 85; 131; 0; 54; 131; 0; 3; 32; 119;
+   120; 121; 122; 0; 1; 96; 131; 0; 3; 32; 119; 120; 121; 122; 0; 1; 196; 15; 4; 18; 131; 0; 1; 131; 0; 3; 32; 119; 120; 121; 122; 0; 1; 1; 1].
+Definition exw_e := EncWbxml.enc_env (EncWbxmlDenote2.to_blang exw_L) exw_o.
+
+Example C03_ex_wide :
+  find (fun x => l_id x =? 1104) main_table = Some exw_L
+  /\ XmlFront.tree_from_xml main_table ex_sub [60] exw_evs true = inl (XmlFront.mk_xtree 1104 0 [exw_root])
+  /\ EncWbxml.find_lang EncWbxmlTables.main_btable 1104 = Some (EncWbxmlDenote2.to_blang exw_L)
+  /\ EncWbxmlAbs.plain_env exw_e = true /\ EncWbxmlDenote2.vals_ok exw_L = true /\ l_exts exw_L = None
+  /\ EncWbxmlTblOk.tree_ok3 exw_L 0 exw_root = true /\ EncWbxml.has_attr_table exw_e = true
+  /\ no_data (EncWbxmlDenote3.doc_events3 exw_L exw_e false exw_root) = true
+  /\ EncXmlProofs.lang_ok (EncXml.xlang_of exw_L) = true
+  /\ r_out (ConvXml2Wbxml.xml2wbxml_events main_table EncWbxmlTables.main_btable ex_sub exw_evs true exw_o [60]) = Some exw_w
+  /\ wbxml2xml_model main_table exw_o' exw_w = mk_res ST_OK (Some (exw_x ++ [0])) (N.of_nat (length exw_x))
+  /\ exists evs, parse_with main_table 1104 0 (S (length exw_w)) exw_w = POk evs
+                 /\ evs <> EncWbxmlDenote3.doc_events3 exw_L exw_e false exw_root.
+Proof.
+  repeat (split; [vm_compute; reflexivity|]). eexists; split; [vm_compute; reflexivity|vm_compute; discriminate].
 Qed.
